@@ -1,0 +1,138 @@
+// Tencent is pleased to support the open source community by making trpc-mcp-go available.
+//
+// Copyright (C) 2025 Tencent.  All rights reserved.
+//
+// trpc-mcp-go is licensed under the Apache License Version 2.0.
+
+package schema
+
+import (
+	"reflect"
+	"sort"
+	"strings"
+	"unicode"
+)
+
+// jsonField is one JSON object member encoding/json produces for a struct type.
+type jsonField struct {
+	reflect.StructField
+	jsonName string // the member name encoding/json uses
+	tagged   bool   // the name comes from the json tag
+	depth    int    // embedding depth
+	order    int    // declaration order, embedded structs expanded in place
+}
+
+// isValidJSONTagName mirrors encoding/json: a tag name with other characters is ignored.
+func isValidJSONTagName(s string) bool {
+	if s == "" {
+		return false
+	}
+	for _, c := range s {
+		switch {
+		case strings.ContainsRune("!#$%&()*+-./:;<=>?@[]^_{|}~ ", c):
+			// Backslash and quote chars are reserved, but otherwise any punctuation is allowed.
+		case !unicode.IsLetter(c) && !unicode.IsDigit(c):
+			return false
+		}
+	}
+	return true
+}
+
+// jsonStructFields returns the members encoding/json emits for struct type t, in declaration
+// order: unexported and `json:"-"` fields are skipped, the fields of embedded structs are promoted
+// (also through embedded pointers and unexported embedded struct types) unless the embedded field
+// carries a tag name, and name conflicts are resolved by depth and tagging as encoding/json does.
+func jsonStructFields(t reflect.Type) []jsonField {
+	type level struct {
+		t     reflect.Type
+		depth int
+	}
+	next := []level{{t, 0}}
+	visited := map[reflect.Type]bool{}
+	var fields []jsonField
+	order := 0
+	for len(next) > 0 {
+		current := next
+		next = nil
+		count := map[reflect.Type]int{}
+		for _, l := range current {
+			count[l.t]++
+		}
+		for _, l := range current {
+			if visited[l.t] {
+				continue
+			}
+			visited[l.t] = true
+			for i := 0; i < l.t.NumField(); i++ {
+				sf := l.t.Field(i)
+				if sf.Anonymous {
+					ft := sf.Type
+					if ft.Kind() == reflect.Ptr {
+						ft = ft.Elem()
+					}
+					if !sf.IsExported() && ft.Kind() != reflect.Struct {
+						continue
+					}
+				} else if !sf.IsExported() {
+					continue
+				}
+				tag := sf.Tag.Get("json")
+				if tag == "-" {
+					continue
+				}
+				name := tag
+				if i := strings.Index(tag, ","); i >= 0 {
+					name = tag[:i]
+				}
+				if !isValidJSONTagName(name) {
+					name = ""
+				}
+				ft := sf.Type
+				if ft.Name() == "" && ft.Kind() == reflect.Ptr {
+					ft = ft.Elem()
+				}
+				if name == "" && sf.Anonymous && ft.Kind() == reflect.Struct {
+					next = append(next, level{ft, l.depth + 1})
+					continue
+				}
+				f := jsonField{StructField: sf, jsonName: name, tagged: name != "", depth: l.depth, order: order}
+				if name == "" {
+					f.jsonName = sf.Name
+				}
+				order++
+				fields = append(fields, f)
+				if count[l.t] > 1 {
+					// The same embedded type reached twice at this depth: its fields conflict with themselves.
+					fields = append(fields, f)
+				}
+			}
+		}
+	}
+	sort.SliceStable(fields, func(i, j int) bool {
+		a, b := fields[i], fields[j]
+		if a.jsonName != b.jsonName {
+			return a.jsonName < b.jsonName
+		}
+		if a.depth != b.depth {
+			return a.depth < b.depth
+		}
+		if a.tagged != b.tagged {
+			return a.tagged
+		}
+		return a.order < b.order
+	})
+	out := fields[:0:0]
+	for i := 0; i < len(fields); {
+		j := i + 1
+		for j < len(fields) && fields[j].jsonName == fields[i].jsonName {
+			j++
+		}
+		// The dominant field wins; two equally ranked candidates annihilate each other.
+		if j-i == 1 || fields[i+1].depth != fields[i].depth || fields[i+1].tagged != fields[i].tagged {
+			out = append(out, fields[i])
+		}
+		i = j
+	}
+	sort.Slice(out, func(i, j int) bool { return out[i].order < out[j].order })
+	return out
+}
